@@ -307,6 +307,134 @@ func genDriver(repo, out string) {
 		}
 		binds = append(binds, fmt.Sprintf("(%s, [%s, %s, %s])", leanStr(name), leanStr(from), leanStr(cond), leanStr(local)))
 	}
+	// --- every syntactic use of the request parameter in the four request methods: the request that goes on the wire
+	// is the slice the caller marshalled iff the method only hands it to the write (and the debug dump), takes its
+	// length and reads single bytes. A slice expression that is not itself a call argument is an alias, an indexed
+	// assignment a write.
+	uses := []string{}
+	for _, name := range []string{"Broadcast", "BroadcastTo", "SendUDP", "SendTCP"} {
+		fn := findFunc(f, name, "ut0311")
+		seen := map[string]bool{}
+		if fn != nil && fn.Type.Params != nil {
+			param := ""
+			for _, fld := range fn.Type.Params.List {
+				if src(fld.Type) == "[]byte" && len(fld.Names) == 1 {
+					param = fld.Names[0].Name
+				}
+			}
+			stack := []ast.Node{}
+			ast.Inspect(fn.Body, func(n ast.Node) bool {
+				if n == nil {
+					stack = stack[:len(stack)-1]
+					return true
+				}
+				if id, ok := n.(*ast.Ident); ok && id.Name == param && param != "" {
+					use := "other"
+					var parent, grand ast.Node
+					if len(stack) > 0 {
+						parent = stack[len(stack)-1]
+					}
+					if len(stack) > 1 {
+						grand = stack[len(stack)-2]
+					}
+					isLHS := func(e ast.Node, holder ast.Node) bool {
+						switch h := holder.(type) {
+						case *ast.AssignStmt:
+							for _, l := range h.Lhs {
+								if l == e {
+									return true
+								}
+							}
+						case *ast.IncDecStmt:
+							return h.X == e
+						case *ast.UnaryExpr:
+							return h.Op == token.AND
+						}
+						return false
+					}
+					switch p := parent.(type) {
+					case *ast.CallExpr:
+						if p.Fun != n {
+							use = "arg:" + src(p.Fun)
+						}
+					case *ast.IndexExpr:
+						if p.X == n {
+							if isLHS(p, grand) {
+								use = "index-write"
+							} else {
+								use = "index-read"
+							}
+						}
+					case *ast.SliceExpr:
+						if c, ok := grand.(*ast.CallExpr); ok && c.Fun != parent {
+							use = "arg-slice:" + src(c.Fun)
+						} else {
+							use = "alias:" + src(p)
+						}
+					case *ast.AssignStmt:
+						use = "assign"
+					case *ast.RangeStmt:
+						if p.X == n {
+							use = "range-read"
+						}
+					default:
+						use = fmt.Sprintf("other:%T", parent)
+					}
+					seen[use] = true
+				}
+				stack = append(stack, n)
+				return true
+			})
+			if param == "" {
+				seen["no-request-parameter"] = true
+			}
+		} else {
+			seen["method-not-found"] = true
+		}
+		us := []string{}
+		for k := range seen {
+			us = append(us, leanStr(k))
+		}
+		sort.Strings(us)
+		uses = append(uses, fmt.Sprintf("(%s, [%s])", leanStr(name), strings.Join(us, ", ")))
+	}
+	// --- codec.Dump gets the request before it is written on two of the four paths: everything it calls and every
+	// indexed / sliced assignment in its body
+	dump := []string{}
+	{
+		cf := parseFile(filepath.Join(repo, "encoding/UTO311-L0x/UT0311-L0x.go"))
+		seen := map[string]bool{}
+		if fn := findFunc(cf, "Dump", ""); fn != nil {
+			ast.Inspect(fn.Body, func(n ast.Node) bool {
+				switch x := n.(type) {
+				case *ast.CallExpr:
+					seen["call:"+src(x.Fun)] = true
+				case *ast.AssignStmt:
+					for _, l := range x.Lhs {
+						switch l.(type) {
+						case *ast.IndexExpr, *ast.SliceExpr, *ast.StarExpr:
+							seen["write:"+src(l)] = true
+						}
+					}
+				case *ast.IncDecStmt:
+					if _, ok := x.X.(*ast.IndexExpr); ok {
+						seen["write:"+src(x.X)] = true
+					}
+				case *ast.GoStmt:
+					seen["go"] = true
+				}
+				return true
+			})
+		} else {
+			seen["function-not-found"] = true
+		}
+		for k := range seen {
+			dump = append(dump, leanStr(k))
+		}
+		sort.Strings(dump)
+	}
+	fmt.Fprintf(&b, "/-- codec.Dump: every function it calls, every assignment through an index, slice or pointer -/\ndef dumpFacts : List String := [%s]\n\n", strings.Join(dump, ", "))
+	fmt.Fprintf(&b, "/-- per request method: every kind of syntactic use of its request parameter -/\ndef requestUses : List (String × List String) := [%s]\n\n", strings.Join(uses, ",\n  "))
 	fmt.Fprintf(&b, "/-- per request method: what `bind` is initialised from, the condition under which it is replaced by the wildcard address, what the socket is opened on -/\ndef bindFacts : List (String × List String) := [%s]\n\n", strings.Join(binds, ",\n  "))
 	fmt.Fprintf(&b, "/-- size of the receive buffer each method reads a datagram into (0 = not recognised) -/\ndef bufSizes : List (String × Nat) := [%s]\n\n", strings.Join(sizes, ", "))
 	b.WriteString("end Uhppote.Gen.Driver\n")
